@@ -9,7 +9,7 @@ var properties = map[string]*property{}
 
 func init() {
 	c14q := map[string]int{"K": 3, "B": 2, "strlen": 8, "paths": 1500, "wall_s": 40}
-	c14t := map[string]int{"K": 4, "B": 3, "strlen": 8, "paths": 30000, "wall_s": 600}
+	c14t := map[string]int{"K": 4, "B": 3, "strlen": 8, "paths": 8000, "wall_s": 90}
 	properties["C14"] = &property{
 		ID: "C14", Level: "model_checking",
 		Harnesses: []harness{
@@ -34,14 +34,14 @@ func init() {
 		Harnesses: append([]harness{{Name: "gsxC03FileInfo", Pkg: "linter", Quick: map[string]int{"strlen": 3, "paths": 4000, "wall_s": 120}, MustReach: []string{"set"}}},
 			relHarnesses([]string{"gsxHistVisit_", "gsxHistWalk_"}, "history",
 				[]map[string]int{{"K": 3, "B": 2, "strlen": 8, "paths": 300, "wall_s": 6}, {"K": 2, "B": 2, "strlen": 8, "paths": 150, "wall_s": 5}},
-				[]map[string]int{{"K": 4, "B": 2, "strlen": 8, "paths": 20000, "wall_s": 300}, {"K": 3, "B": 2, "strlen": 8, "paths": 10000, "wall_s": 300}})...),
+				[]map[string]int{{"K": 4, "B": 2, "strlen": 8, "paths": 4000, "wall_s": 30}, {"K": 3, "B": 2, "strlen": 8, "paths": 3000, "wall_s": 25}})...),
 		Assumptions: []string{"as C01; one step of history (an arbitrary earlier input) from the initial checker state, against a fresh instance"},
 	}
 	properties["C13"] = &property{
 		ID: "C13", Level: "model_checking", Kinds: []string{"local"},
 		Harnesses: relHarnesses([]string{"gsxLocal_"}, "local",
 			[]map[string]int{{"K": 3, "B": 2, "strlen": 8, "paths": 600, "wall_s": 15}},
-			[]map[string]int{{"K": 4, "B": 2, "strlen": 8, "paths": 20000, "wall_s": 300}}),
+			[]map[string]int{{"K": 4, "B": 2, "strlen": 8, "paths": 5000, "wall_s": 40}}),
 		Assumptions: []string{"as C01; two lazily initialised function declarations d1, d2 in source order"},
 	}
 	properties["C02"] = &property{
@@ -49,21 +49,21 @@ func init() {
 		Harnesses: append([]harness{{Name: "gsxC02RuleOrder", Pkg: "checkers", Quick: map[string]int{"strlen": 3, "paths": 4000, "wall_s": 120}, MapOrder: 4, NoValidate: true, ReplayFn: replayRuleOrder, MustReach: []string{"ran twice"}}},
 			relHarnesses([]string{"gsxRepeat_"}, "repeat",
 				[]map[string]int{{"K": 2, "B": 3, "strlen": 6, "paths": 600, "wall_s": 15}},
-				[]map[string]int{{"K": 3, "B": 4, "strlen": 6, "paths": 20000, "wall_s": 300}})...),
+				[]map[string]int{{"K": 3, "B": 4, "strlen": 6, "paths": 5000, "wall_s": 40}})...),
 		Assumptions: []string{"as C01; the iteration order of every Go map with at most 4 entries is an independent nondeterministic permutation at each range statement"},
 	}
 	{
 		var hs []harness
 		for _, n := range []string{"appendAssign", "appendCombine", "newDeref", "badRegexp", "regexpPattern", "regexpSimplify", "sortSlice", "filepathJoin", "flagName"} {
 			hs = append(hs, harness{Name: "gsxAPI_" + n, Pkg: "checkers", Quick: map[string]int{"K": 3, "B": 2, "strlen": 8, "paths": 1500, "wall_s": 30},
-				Thorough: map[string]int{"K": 4, "B": 2, "strlen": 8, "paths": 30000, "wall_s": 600}, NoValidate: true, Tolerant: true, ReplayFn: replayAPI(n)})
+				Thorough: map[string]int{"K": 4, "B": 2, "strlen": 8, "paths": 6000, "wall_s": 45}, NoValidate: true, Tolerant: true, ReplayFn: replayAPI(n)})
 		}
 		properties["C20"] = &property{ID: "C20", Level: "model_checking", Kinds: []string{"api"}, Harnesses: hs,
 			Assumptions: []string{"as C01; table of documented subjects per checker (builtin name / standard package path) in the harness"}}
 	}
 	properties["C10"] = &property{ID: "C10", Level: "translation_validation", Kinds: []string{"simplify"},
 		Harnesses: []harness{
-			{Name: "gsxC10BoolSimplify", Pkg: "checkers", Quick: map[string]int{"depth": 1, "strlen": 4, "paths": 6000, "wall_s": 120}, Thorough: map[string]int{"depth": 2, "strlen": 4, "paths": 100000, "wall_s": 1800},
+			{Name: "gsxC10BoolSimplify", Pkg: "checkers", Quick: map[string]int{"depth": 1, "strlen": 4, "paths": 6000, "wall_s": 120}, Thorough: map[string]int{"depth": 2, "strlen": 4, "paths": 40000, "wall_s": 900},
 				NoValidate: true, Tolerant: true, ReplayFn: replayC10, MustReach: []string{"simplified"}},
 		},
 		Assumptions: []string{"integer operands without overflow (as the property allows); float64 operands over the rationals in half units (NaN/Inf not modelled); literals: decimal or octal integer literals of up to 3 digits"}}
@@ -78,7 +78,7 @@ func init() {
 			"3 workers / 3 concurrent passes; branches inside the walked functions are over-approximated (all instructions of all blocks are events)"}}
 	properties["C17"] = &property{ID: "C17", Level: "model_checking", Kinds: []string{"groups"},
 		Harnesses: []harness{
-			{Name: "gsxC17Groups", Pkg: "checkers", Quick: map[string]int{"strlen": 4, "paths": 4000, "wall_s": 120}, Replay: "none", NoValidate: true, MustReach: []string{"initialised"}},
+			{Name: "gsxC17Groups", Pkg: "checkers", Quick: map[string]int{"strlen": 4, "paths": 4000, "wall_s": 120}, ReplayFn: replayC17Groups, NoValidate: true, MustReach: []string{"initialised"}},
 		},
 		Assumptions: []string{"the rule engine is a model: LoadFromIR records the group filter's answers for 1-2 symbolic rule groups, LoadedGroups returns them",
 			"'precompiled data equals compiled source' and 'documentation lists exactly the registered checkers' are artefact equalities without a symbolic dimension: not covered (see DESIGN.md)"}}
@@ -103,31 +103,31 @@ func init() {
 		// checkers that quote syntax (original and/or suggested code) in their messages
 		var hs []harness
 		quoting := quotingCheckers()
-		for _, h := range visitHarnesses(map[string]int{"K": 3, "B": 2, "strlen": 8, "paths": 1000, "wall_s": 25}, map[string]int{"K": 4, "B": 2, "strlen": 8, "paths": 30000, "wall_s": 600, "witness": 1}) {
+		for _, h := range visitHarnesses(map[string]int{"K": 3, "B": 2, "strlen": 8, "paths": 1000, "wall_s": 25}, map[string]int{"K": 4, "B": 2, "strlen": 8, "paths": 6000, "wall_s": 45, "witness": 1}) {
 			if strings.HasPrefix(h.Name, "gsxVisit_") && quoting[strings.TrimPrefix(h.Name, "gsxVisit_")] {
 				hs = append(hs, h)
 			}
 		}
 		hs = append(hs,
 			harness{Name: "gsxC09CommentFix", Pkg: "checkers", Quick: map[string]int{"strlen": 8, "paths": 4000, "wall_s": 150}, Thorough: map[string]int{"strlen": 12, "paths": 20000, "wall_s": 900}, MustReach: []string{"checked", "reported", "re-analysed"}},
-			harness{Name: "gsxC09RuleFix", Pkg: "checkers", Quick: map[string]int{"strlen": 4, "paths": 4000, "wall_s": 120}, NoValidate: true, Replay: "none", MustReach: []string{"checked"}})
+			harness{Name: "gsxC09RuleFix", Pkg: "checkers", Quick: map[string]int{"strlen": 4, "paths": 4000, "wall_s": 120}, NoValidate: true, ReplayFn: replayRuleFix, MustReach: []string{"checked"}})
 		properties["C09"] = &property{ID: "C09", Level: "model_checking", Kinds: []string{"suggest"}, Harnesses: hs,
 			Assumptions: []string{"as C01; the syntax trees handed to the message printer are checked against go/ast's documented well-formedness (required children present); confirmed natively: the printed suggestion parses as the replaced category, substituted for the original the file type-checks with the same type, and re-analysis does not report at that place"}}
 	}
 	properties["C07"] = &property{
 		ID: "C07", Level: "model_checking", Kinds: []string{"pos"},
-		Harnesses:   visitHarnesses(map[string]int{"K": 3, "B": 2, "strlen": 8, "paths": 1000, "wall_s": 25}, map[string]int{"K": 4, "B": 2, "strlen": 8, "paths": 30000, "wall_s": 600}),
+		Harnesses:   visitHarnesses(map[string]int{"K": 3, "B": 2, "strlen": 8, "paths": 1000, "wall_s": 25}, map[string]int{"K": 4, "B": 2, "strlen": 8, "paths": 6000, "wall_s": 45}),
 		Assumptions: []string{"as C01; diagnostics are observed in the checker's warning buffer; message formatting (go/printer) is an event stub checked for format/argument consistency"},
 	}
 	properties["C05"] = &property{
 		ID: "C05", Level: "model_checking", Kinds: []string{"write"},
-		Harnesses: append(visitHarnesses(map[string]int{"K": 3, "B": 2, "strlen": 8, "paths": 1000, "wall_s": 25}, map[string]int{"K": 4, "B": 2, "strlen": 8, "paths": 30000, "wall_s": 600}),
+		Harnesses: append(visitHarnesses(map[string]int{"K": 3, "B": 2, "strlen": 8, "paths": 1000, "wall_s": 25}, map[string]int{"K": 4, "B": 2, "strlen": 8, "paths": 6000, "wall_s": 45}),
 			harness{Name: "gsxC18FailurePolicy", Pkg: "checkers", Quick: map[string]int{"strlen": 16}, NoValidate: true}),
 		Assumptions: []string{"as C01; write monitor on every cell of the lazily created syntax tree, the types.Info tables and the registered parameter values"},
 	}
 	properties["C01"] = &property{
 		ID: "C01", Level: "model_checking", Kinds: []string{"panic"},
-		Harnesses: visitHarnesses(map[string]int{"K": 3, "B": 2, "strlen": 8, "paths": 1000, "wall_s": 25}, map[string]int{"K": 4, "B": 2, "strlen": 8, "paths": 30000, "wall_s": 600}),
+		Harnesses: visitHarnesses(map[string]int{"K": 3, "B": 2, "strlen": 8, "paths": 1000, "wall_s": 25}, map[string]int{"K": 4, "B": 2, "strlen": 8, "paths": 6000, "wall_s": 45}),
 	}
 	properties["C06"] = &property{
 		ID: "C06", Level: "model_checking",
@@ -206,7 +206,7 @@ func visitHarnesses(quick, thorough map[string]int) []harness {
 	for _, n := range names {
 		hs = append(hs, harness{Name: "gsxVisit_" + n, Pkg: "checkers", Quick: quick, Thorough: thorough, NoValidate: true, Tolerant: true, ReplayFn: replayVisit(n)})
 		wq := map[string]int{"K": 2, "B": 2, "strlen": 8, "paths": 400, "wall_s": 15}
-		wt := map[string]int{"K": 3, "B": 2, "strlen": 8, "paths": 10000, "wall_s": 300}
+		wt := map[string]int{"K": 3, "B": 2, "strlen": 8, "paths": 3000, "wall_s": 25}
 		hs = append(hs, harness{Name: "gsxWalk_" + n, Pkg: "checkers", Quick: wq, Thorough: wt, NoValidate: true, Tolerant: true, ReplayFn: replayVisit(n)})
 	}
 	return hs
